@@ -186,11 +186,25 @@ fn inner(w: &mut World, db: usize, name: &str, a: &[Bytes], reply: &Reply) -> Re
                 Some(Val::Str(v)) => {
                     let len = v.len() as i128;
                     let (mut s, mut e) = (s as i128, e as i128);
+                    if s < 0 && e < 0 && s > e {
+                        return chk_bulk(reply, b"");
+                    }
                     if s < 0 {
                         s += len;
                     }
                     if e < 0 {
                         e += len;
+                    }
+                    if e < 0 {
+                        // an end that is still before the string after adding the length:
+                        // Redis <= 7 clamps it to 0 (first byte), later versions return the
+                        // empty string; both are accepted
+                        w.label("boundary-index");
+                        let first = if len > 0 && s <= 0 { &v[0..1] } else { &v[0..0] };
+                        return match reply {
+                            Reply::Frame(f) if string_like(f) == Some(b"") || string_like(f) == Some(first) => Ok(()),
+                            _ => Err(mm("wrong-value", "\"\" (or the first byte)", reply)),
+                        };
                     }
                     if s < 0 {
                         s = 0;
